@@ -216,11 +216,19 @@ def run_group(stage_dir, harnesses, jobs=16, timeout_s=300, stub=False, cbmc_arg
             "tools": rep.get("tools", {}), "raw_out": out}
 
 
-def extract_playback_tests(src_text, harness_name):
-    """All generated kani_concrete_playback_<harness>_<hash> tests in text:
-    list of (name, text)."""
+def extract_playback_tests(text, harness_name, labels=None):
+    """Concrete-playback unit tests printed by Kani (--concrete-playback=print):
+    list of (name, text).  Only tests generated for a failed check are kept when
+    `labels` is given (Kani also prints one per satisfied cover)."""
     out = []
-    for m in re.finditer(r'(#\[test\]\s*fn (kani_concrete_playback_%s_\d+)\(\)\s*\{.*?\n\})' % re.escape(harness_name),
-                         src_text, re.S):
-        out.append((m.group(2), m.group(1)))
+    seen = set()
+    for m in re.finditer(r'((?:///[^\n]*\n)*)\s*(#\[test\]\s*fn (kani_concrete_playback_%s_\d+)\(\)\s*\{.*?\n\})' % re.escape(harness_name),
+                         text, re.S):
+        doc, body, name = m.group(1), m.group(2), m.group(3)
+        if name in seen:
+            continue
+        if labels is not None and "Check for `cover`" in doc:
+            continue
+        seen.add(name)
+        out.append((name, body))
     return out
